@@ -1,9 +1,12 @@
 package sim
 
 import (
+	sdkmath "cosmossdk.io/math"
 	"encoding/binary"
 	"encoding/json"
 	"fmt"
+	"github.com/cosmos/cosmos-sdk/telemetry"
+	sdk "github.com/cosmos/cosmos-sdk/types"
 	"hash/fnv"
 	"math/rand"
 	"os"
@@ -249,6 +252,26 @@ func RunShard(id string) int {
 			rc.CallLog = f
 			defer f.Close()
 		}
+	}
+	// node-local settings that must not matter: every other shard process runs with the SDK's telemetry switched on
+	// (app.toml [telemetry] enabled = true), the way many production nodes do
+	if (rc.Seed+int64(rc.Shard))%2 == 1 || os.Getenv("VERIF_TELEMETRY") == "1" {
+		if _, err := telemetry.New(telemetry.Config{Enabled: true, ServiceName: "verif", EnableServiceLabel: true, GlobalLabels: [][]string{{"chain_id", "verif-1"}}}); err != nil {
+			rc.Cov.Inconclusive("telemetry could not be enabled: " + err.Error())
+		}
+		rc.Cov.Cell("node_local", "telemetry=on")
+		// ... and with denomination units registered with the SDK's process-wide registry (an application does that in
+		// its init): two families with the same exponents, so that a conversion between them would change nothing but the name
+		_ = sdk.RegisterDenom("uusdc", sdkmath.LegacyNewDecWithPrec(1, 6))
+		_ = sdk.RegisterDenom("usdc", sdkmath.LegacyOneDec())
+		_ = sdk.RegisterDenom("ueure", sdkmath.LegacyNewDecWithPrec(1, 6))
+		_ = sdk.RegisterDenom("eure", sdkmath.LegacyOneDec())
+		_ = sdk.RegisterDenom("uusdc2", sdkmath.LegacyNewDecWithPrec(1, 3))
+		_ = sdk.SetBaseDenom("uusdc")
+		rc.Cov.Cell("node_local", "denom-units=registered")
+	} else {
+		rc.Cov.Cell("node_local", "telemetry=off")
+		rc.Cov.Cell("node_local", "denom-units=none")
 	}
 	ck.Run(rc)
 	so := shardOut{Cov: rc.Cov, Viol: rc.Viol, Done: true}
